@@ -22,9 +22,11 @@ CHECKS = {
              "ipc type byte, truncated header/body + disconnect, plain disconnect, on one of up to three connections over tcp, ipc and socket://: "
              "only the offending connection is dropped, nothing malformed or oversize is delivered, the listener and the other "
              "connections keep working.  Behaviours replayed by a plain-socket peer with RECVMAXSZ = 4 units and unlimited, clamps 1/3/none, "
-             "under ASan/UBSan; a wedged library is a watchdog timeout; the allocator balance is taken after every behaviour.",
-        note="Trusted: as C01. Grammar-based streams of the item vocabulary, not coverage-guided mutation; websocket/HTTP and udp sessions are "
-             "not driven (C16 is not claimed); protocol-header garbage is covered at the protocol level by C04/C07/C08/C13 (short and "
+             "under ASan/UBSan; a wedged library is a watchdog timeout; the allocator balance is taken after every behaviour.  "
+             "wire/Udp.tla: SP over UDP seen from a listener (connection requests good / refresh 0 / wrong protocol, data within and above "
+             "the limit and lying about its length, wrong version, short datagrams, unknown opcode, disconnect, from three peers): what is "
+             "delivered and every datagram sent back (CACK with the limit, DISC with its reason) must be as specified.",
+        note="Trusted: as C01. Grammar-based streams of the item vocabulary, not coverage-guided mutation; websocket/HTTP sessions are driven by C16; protocol-header garbage is covered at the protocol level by C04/C07/C08/C13 (short and "
              "over-long backtraces, bad hop words) through the harness transport.",
         technique="TLA+ model checking (TLC) + simulation replay of hostile streams against real transports",
         ref="DESIGN.md section 4, C11"),
